@@ -25,3 +25,9 @@ func VerifNewOracle(nn gpbft.NetworkName, backend signing.Backend, priorInstance
 func (o *VerifOracle) Validate(d *gpbft.Justification) error { return o.Inst.validateDecision(d) }
 func (o *VerifOracle) Notify(id gpbft.ActorID, d *gpbft.Justification) { o.ec.NotifyDecision(id, d) }
 func (o *VerifOracle) Err() error                                       { return o.ec.Err() }
+
+// the consensus check Simulation.Run applies to a completed instance
+func (o *VerifOracle) ReachedConsensus(exclude ...gpbft.ActorID) (*gpbft.ECChain, bool) {
+	return o.Inst.HasReachedConsensus(exclude...)
+}
+func (o *VerifOracle) Completed(exclude ...gpbft.ActorID) bool { return o.Inst.HasCompleted(exclude...) }
